@@ -226,11 +226,13 @@ def _list_buildoptions(coredata: cdata.CoreData, subprojects: T.Optional[T.List[
     test_options: options.MutableKeyedOptionDictType = {}
     core_options: options.MutableKeyedOptionDictType = {}
     # An override of a global option for one subproject (-Dsub:werror=true) is
-    # not an option object of its own, it only exists as an augment.
+    # not an option object of its own, it only exists as an augment.  One that
+    # merely repeats the global value is not listed: whether it exists depends
+    # on how the build directory got its values, not on what they are.
     all_options = list(coredata.optstore.items())
-    for k in coredata.optstore.augments:
+    for k, augment in coredata.optstore.augments.items():
         overridden = coredata.optstore.options.get(k.evolve(subproject=None))
-        if overridden is not None and k not in coredata.optstore.options:
+        if overridden is not None and k not in coredata.optstore.options and augment != overridden.value:
             all_options.append((k, overridden))
     for k, v in all_options:
         if k in dir_option_names:
